@@ -188,6 +188,8 @@ pub struct InputImpl {
     pub self_ty: syn::Type,
     #[expect(unused)]
     pub brace_token: syn::token::Brace,
+    /// `#![..]` / `//!` at the start of the impl body
+    pub inner_attrs: Vec<syn::Attribute>,
     pub items: Vec<ImplItem>,
 }
 
@@ -332,6 +334,7 @@ fn parse_impl(
     if lookahead.peek(syn::token::Brace) {
         let content;
         let brace_token = syn::braced!(content in input);
+        let inner_attrs = content.call(syn::Attribute::parse_inner)?;
 
         let mut items = vec![];
 
@@ -347,6 +350,7 @@ fn parse_impl(
             for_token,
             self_ty,
             brace_token,
+            inner_attrs,
             items,
         })
     } else {
